@@ -135,7 +135,12 @@ impl Table {
         let mut metaindexiter = metaix.iter();
         metaindexiter.seek(&filter_name);
 
-        if let Some((_key, val)) = current_key_val(&metaindexiter) {
+        if let Some((key, val)) = current_key_val(&metaindexiter) {
+            // seek() stops at the first key that is not smaller than the wanted one; a filter
+            // written by a different policy must not be interpreted by this one.
+            if key != filter_name {
+                return Ok(None);
+            }
             let filter_block_location = BlockHandle::decode(&val).0;
             if filter_block_location.size() > 0 {
                 check_block_bounds(&filter_block_location, file_size)?;
